@@ -14,7 +14,7 @@ pub static DEF: CheckDef = CheckDef {
     rule: "(a) exhaustive walk: for all 16 STAT enable masks x LYC in {0, 1, 77, 143, 144, 153, 200}, two whole frames (plus the power-on vertical blank) are delivered 4 clocks at a time, and after every batch LY, the STAT mode and coincidence bits, the VBlank request and the STAT request of that batch are compared with the closed-form schedule (models::lcd): this pins every event to its exact 4-clock slot. (b) proptest histories of up to 12 operations over {write STAT enable mask, write LYC, advance(n)} with n a multiple of 4 from 4 to 2000000 clocks (up to 28 frames in one batch, biased to whole numbers of frames and to multiples of 262144; biased to line, mode and frame boundaries), on the VideoState device and through the bus (0xFF41/0xFF44/0xFF45, IF bits 0 and 1); same observations after every operation. Metamorphic: every advance is also delivered split at generated cut points to a second instance, which must observe exactly the same. Non-trivial = history whose advances cross 143->144, 153->0, an enabled mode entry or an LY=LYC hit; distinct by hash of the history. Program layer (the glue between the CPU loop and the device): generated structured programs (C04's generator with the device fragments weighted up: STAT/LYC writes, EI;HALT woken by a STAT source, OAM DMA running in the background) run on a whole core in three stepping modes (interpreter instruction-stepped, interpreter block-stepped, jit block-stepped); the reference machine says which bus writes each step made, how many clocks it is worth and which request was acknowledged, and the independent model fed with exactly that must agree with LY, STAT bits 0-2, the STAT enable bits and IF bits 0 and 1 (a batch with a cause must request, a batch with none must not; a STAT/LYC write while LY = LYC leaves bit 1 open; the LCD is not judged after a program clears LCDC bit 7) after every step.",
     assumptions: &[
         "models::lcd (154 lines x 456 clocks, 80/188/188 split as the property states, power-on at the first clock of line 144)",
-        "a STAT request caused by writing STAT or LYC while LY = LYC is neither required nor forbidden; STAT-line blocking between sources is not modelled (a batch containing at least one cause must request, a batch with none must not)",
+        "a STAT request caused by a STAT or LYC write that enables a source whose condition already holds (LY = LYC with the coincidence enable set after the write; the current mode's enable set by a STAT write) is neither required nor forbidden - any other register write must not request; STAT-line blocking between sources is not modelled (a batch containing at least one cause must request, a batch with none must not)",
         "batches are multiples of 4 clocks (every caller guarantees it); LCDC = 0x91 (LCD on)",
     ],
     required_classes: &["cross-143-144", "cross-153-0", "enabled-mode-entry", "lyc-hit", "split-advance-with-event", "level-device", "level-bus", "walk", "program-vblank", "program-stat-request", "program-dma-started", "program-halted-or-stopped-steps", "program-mode-block-jit"],
@@ -137,6 +137,7 @@ struct Stats {
     mode_entry: bool,
     lyc_hit: bool,
     split_event: bool,
+    write_without_cause: bool,
 }
 
 fn exec_on(whole: &mut dyn Dut, split: &mut dyn Dut, ops: &[Op], st: &mut Stats) -> CaseResult {
@@ -152,11 +153,24 @@ fn exec_on(whole: &mut dyn Dut, split: &mut dyn Dut, ops: &[Op], st: &mut Stats)
                 stat_en = *v & 0x78;
                 fw = whole.set_stat(*v);
                 fs = split.set_stat(*v);
+                // a register write is no mode entry and does not make LY become LYC. What a
+                // write may do when it enables a source whose condition already holds is left
+                // open; with no such source it must not request anything
+                let p = lcd::position(t);
+                let mode_bit = [lcd::STAT_MODE0, lcd::STAT_MODE1, lcd::STAT_MODE2, 0][p.mode as usize & 3];
+                if !((p.line == lyc && stat_en & lcd::STAT_LYC != 0) || stat_en & mode_bit != 0) {
+                    want_stat = Some(false);
+                    st.write_without_cause = true;
+                }
             }
             Op::Lyc(v) => {
                 lyc = *v;
                 fw = whole.set_lyc(*v);
                 fs = split.set_lyc(*v);
+                if !(lcd::position(t).line == lyc && stat_en & lcd::STAT_LYC != 0) {
+                    want_stat = Some(false);
+                    st.write_without_cause = true;
+                }
             }
             Op::Adv(n, cuts) => {
                 let n = (*n / 4).max(1) * 4;
@@ -251,7 +265,7 @@ fn exec(ms: &mut Machines, c: &Case, rec: &mut Rec, counting: bool) -> CaseResul
         rec.eval(1);
         rec.class(if c.level == 0 { "level-device" } else { "level-bus" }, 1);
         let mut nt = false;
-        for (name, on) in [("cross-143-144", st.cross_vblank), ("cross-153-0", st.cross_wrap), ("enabled-mode-entry", st.mode_entry), ("lyc-hit", st.lyc_hit), ("split-advance-with-event", st.split_event)] {
+        for (name, on) in [("cross-143-144", st.cross_vblank), ("cross-153-0", st.cross_wrap), ("enabled-mode-entry", st.mode_entry), ("lyc-hit", st.lyc_hit), ("split-advance-with-event", st.split_event), ("register-write-without-cause-requests-nothing", st.write_without_cause)] {
             if on {
                 rec.class(name, 1);
                 nt = true;
